@@ -67,10 +67,97 @@ def check(ctx, report):
 
 # ---- R1 -------------------------------------------------------------------------------------------
 
+def entry_points_by_evaluation(ctx, report, base):
+    """the three public entry points evaluated (sa.miniexec, with the helper methods they call) on a model class whose
+    ``_parse`` returns (object, n) for every 0 <= n <= len(buffer) of buffers of 0..6 bytes, or raises: parse_immutable
+    returns (object, n) and leaves the buffer as it was; parse_mutable returns the object and removes exactly the first n
+    bytes; parse_exact_size returns the object when n == len(buffer) and raises TooMuchData otherwise, buffer untouched; a
+    failing ``_parse`` leaves the buffer untouched and its error passes through; ``_parse`` is called exactly once, with the
+    caller's buffer.  Returns False when an entry point left the evaluable subset (the syntactic rule decides)"""
+    from ..miniexec import Evaluator, Native, NativeError, Obj, Raised, Unsupported, class_call_hook
+
+    class ParseFailed(NativeError):
+        pass
+    state = {}
+
+    def extra(n, ev):
+        d = ast.unparse(n.func)
+        if d == 'cls._parse':
+            arg = ev.ev(n.args[0])
+            state['calls'] = state.get('calls', 0) + 1
+            state['same_buffer'] = arg is state['buffer']
+            if state['fail']:
+                raise ParseFailed()
+            return (state['object'], state['n'])
+        if d == 'TooMuchData':
+            return NotImplemented
+        return NotImplemented
+    hook = class_call_hook(base, extra, ctx.model)
+    runs = 0
+    try:
+        for name in ('parse_mutable', 'parse_immutable', 'parse_exact_size'):
+            f = base.methods.get(name)
+            if f is None:
+                report.error('C03.R1: ParsableBaseNoABC.%s vanished' % name)
+                continue
+            report.touch(f)
+            cons = f.construct
+            problems = {}
+            for size in range(0, 7):
+                for n in list(range(0, size + 1)) + ['fail']:
+                    runs += 1
+                    data = bytes(range(0x10, 0x10 + size))
+                    buf = bytearray(data)
+                    obj = Obj(tag='parsed')
+                    state.clear()
+                    state.update(buffer=buf, object=obj, n=n if n != 'fail' else 0, fail=(n == 'fail'))
+                    try:
+                        got = Evaluator({'cls': 'cls', 'parsable': buf}, hook, None).function(f.node)
+                        raised = None
+                    except Raised as e:
+                        got, raised = None, e.what
+                    if state.get('calls', 0) != 1 or not state.get('same_buffer', False):
+                        problems.setdefault('@call', '_parse must be called exactly once, with the caller\'s buffer (called %d times)' % state.get('calls', 0))
+                        continue
+                    if n == 'fail':
+                        if raised is None or 'ParseFailed' not in raised:
+                            problems.setdefault('@error', 'an error raised by _parse does not pass through (%r)' % (raised or got,))
+                        if bytes(buf) != data:
+                            problems.setdefault('@buffer', 'the buffer is modified although _parse failed')
+                        continue
+                    if name == 'parse_immutable':
+                        if raised is not None or not (isinstance(got, tuple) and len(got) == 2 and got[0] is obj and got[1] == n):
+                            problems.setdefault('@return', 'must return (object, length) unchanged and not touch the buffer (n=%d of %d bytes gives %r)' % (n, size, raised or got))
+                        if bytes(buf) != data:
+                            problems.setdefault('@return', 'must return (object, length) unchanged and not touch the buffer (buffer modified)')
+                    elif name == 'parse_mutable':
+                        if raised is not None or got is not obj:
+                            problems.setdefault('@return', 'must return the parsed object (n=%d of %d bytes gives %r)' % (n, size, raised or got))
+                        if bytes(buf) != data[n:]:
+                            problems.setdefault('@del', 'must delete exactly parsable[:n] once and touch the buffer nowhere else (n=%d of %d bytes leaves %d)' % (n, size, len(buf)))
+                    else:
+                        if bytes(buf) != data:
+                            problems.setdefault('@buffer', 'parse_exact_size must not modify the buffer')
+                        if n == size:
+                            if raised is not None or got is not obj:
+                                problems.setdefault('@return', 'must return the parsed object (n=%d of %d bytes gives %r)' % (n, size, raised or got))
+                        elif raised is None or 'TooMuchData' not in raised:
+                            problems.setdefault('@toomuch', 'must raise TooMuchData exactly when len(parsable) > n (n=%d of %d bytes gives %r)' % (n, size, raised or got))
+            for k, v in problems.items():
+                report.add('C03.R1', cons + k, v)
+    except Unsupported as e:
+        report.undecided.append('C03.R1: an entry point left the subset the evaluation understands (%s); decided on its syntax' % e)
+        return False
+    report.count('C03.R1', runs)
+    report.sample({'rule': 'C03.R1', 'entry_point_runs': runs, 'domain': 'buffers of 0..6 bytes x every reported length 0..len, and a failing _parse'})
+    return True
+
+
 def entry_points(ctx, report):
     model = ctx.model
     base = model.cls('ParsableBaseNoABC')
-    for name in ('parse_mutable', 'parse_immutable', 'parse_exact_size'):
+    evaluated = entry_points_by_evaluation(ctx, report, base)
+    for name in ('parse_mutable', 'parse_immutable', 'parse_exact_size') if not evaluated else ():
         f = base.methods.get(name)
         report.count('C03.R1')
         if f is None:
@@ -164,11 +251,29 @@ def ownership(ctx, report):
 # ---- R3 -------------------------------------------------------------------------------------------
 
 REVIEWED_R3 = {
-    'StringEnumParsable': 'len(member code) of the member whose code was compared equal with the same-length prefix of the input',
-    'StringEnumCaseInsensitiveParsable': 'len(member code) of the member whose code was compared equal with the same-length prefix of the input',
+    'StringEnumParsable': 'len(member code) of the member whose code was compared equal with the same-length prefix of the input (decided by evaluating the decoder, C10.R2)',
+    'StringEnumCaseInsensitiveParsable': 'len(member code) of the member whose code was compared equal with the same-length prefix of the input (decided by evaluating the decoder, C10.R2)',
     'TlsHandshakeHelloRandomBytes': 'parsed_length - item_num_size: the synthetic prefix prepended by _parse is subtracted again; fact re-checked: '
                                     'the prefix is composed with item_num_size bytes and the same constant is subtracted',
 }
+
+
+_STRING_ENUM = {}
+
+
+def string_enum_length_decided(ctx, base_name):
+    """the prefix matching decoder evaluated (sa.props.c10.decoders_by_evaluation): the reported length is the length of the
+    code the input starts with, for every evaluated input.  True / False, None when the decoder is not evaluable"""
+    if 'r' not in _STRING_ENUM:
+        from ..core import Report
+        from .c10 import decoders_by_evaluation
+        quiet = Report('C03', ctx.tier)
+        decided = decoders_by_evaluation(ctx, quiet)
+        _STRING_ENUM['r'] = (decided, [x for x in quiet.findings])
+    decided, findings = _STRING_ENUM['r']
+    if base_name not in decided:
+        return None
+    return not any(base_name in x.detail or 'StringEnumParsableBase' in x.construct for x in findings)
 
 
 def length_form(v, res, lay):
@@ -286,8 +391,12 @@ def return_lengths(ctx, report):
             rev = [b.name for b in c.mro if isinstance(b, ClassInfo) and b.name in REVIEWED_R3]
             if rev:
                 src = ast.unparse(f.node)
-                fact = (isinstance(ln, Sym) and ln.op == 'sub') if rev[0] == 'TlsHandshakeHelloRandomBytes' else \
-                    ('len(enum_item.value.code)' in src and 'code[:len(enum_item.value.code)]' in src)
+                if rev[0] == 'TlsHandshakeHelloRandomBytes':
+                    fact = isinstance(ln, Sym) and ln.op == 'sub'
+                else:
+                    fact = string_enum_length_decided(ctx, rev[0])
+                    if fact is None:        # not evaluable: the reviewed source fact
+                        fact = 'len(enum_item.value.code)' in src and 'code[:len(enum_item.value.code)]' in src
                 if fact:
                     report.sample({'rule': 'C03.R3', 'class': c.name, 'verdict': 'reviewed', 'reason': REVIEWED_R3[rev[0]]})
                     continue
@@ -703,6 +812,15 @@ def containment(ctx, report):
             continue
         lens = [e for e in cn.flat if e.kind == 'u' and e.key == lenkey]
         if not lens:
+            # the key names the body now (parse_bytes split into parse_numeric + parse_raw): the declared length is the
+            # numeric element the body's size is linked to
+            body = [e for e in cn.flat if e.key == lenkey and e.kind in ('raw', 'nested', 'array')]
+            for le in [e for e in cn.flat if e.kind == 'u' and getattr(e, 'link', None)]:
+                if body and any(t is body[0] for t in le.link[2]):
+                    lens = [le]
+                    lenkey = le.key
+                    break
+        if not lens:
             report.add('C03.R5', cons + '@length[%s]' % lenkey, 'declared length field is not read')
             continue
         le = lens[0]
@@ -1081,6 +1199,22 @@ def library_framing(ctx, report):
     the message would be left in the stream.  Every function that hands the input to a library ``load`` has to refuse the
     indefinite form first (second octet 0x80) - which the protocol that uses it forbids anyway (RFC 4511 5.1)."""
     report.rule('C03.R10', 'messages framed by an ASN.1 decoder: the indefinite length form is refused before the decoder sees the input')
+    from ..ldapbridge import evaluate
+    br = evaluate(ctx)
+    bridge = ctx.model.try_cls('LDAPMessageParsableBase')
+    bridge_f = bridge.methods.get('_parse_asn1') if bridge is not None else None
+    decided_by_evaluation = set()
+    if br['evaluated'] and bridge_f is not None:
+        report.count('C03.R10', br['runs'])
+        report.touch(bridge_f)
+        if 'indefinite' in br['problems']:
+            report.add('C03.R10', bridge_f.construct + '@indefinite-length',
+                       'the input goes to the library decoder without the indefinite length form (30 80 ... 00 00) having been refused: the reported '
+                       'length then leaves the two end-of-contents octets of the message in the stream (%s)' % br['problems']['indefinite'])
+        # load() calls in the bridge and in the helper methods it calls are covered by the evaluation
+        decided_by_evaluation = {bridge_f.qualname} | {
+            m.qualname for m in bridge.methods.values()
+            if any(isinstance(x, ast.Call) and isinstance(x.func, ast.Attribute) and x.func.attr == m.name for x in ast.walk(bridge_f.node))}
     n = 0
     for f in ctx.model.functions():
         if f.module.external or not f.module.relpath.startswith('cryptoparser/tls/ldap.py'):
@@ -1089,6 +1223,8 @@ def library_framing(ctx, report):
                  c.args and 'parsable' in ast.unparse(c.args[0])]
         for ld in loads:
             n += 1
+            if f.qualname in decided_by_evaluation:
+                continue
             report.count('C03.R10')
             report.touch(f)
             ok = False
